@@ -368,6 +368,8 @@ def gray2int(binstr: str) -> int:
 
 def data(msg: str) -> str:
     """Return the data frame in the message, bytes 9 to 22."""
+    if len(msg) != 28:
+        raise RuntimeError("%s: Not a long message, no data frame" % msg)
     return msg[8:-6]
 
 
